@@ -18,6 +18,27 @@ ROOT = os.path.dirname(os.path.dirname(os.path.abspath(__file__)))
 names = sys.argv[1:] or sorted(os.path.basename(os.path.dirname(p))
                                for p in glob.glob(os.path.join(ROOT, "seeded", "*", "patch.diff")))
 NW = os.environ.get("SEED_TEST_WORKERS", "12")
+RE_MAP = [
+    ("conjugate_gradient", ["test_ncg", "test_optimize_kl", "test_evi"]),
+    ("re/optimize.py", ["test_ncg", "test_optimize_kl", "test_evi"]),
+    ("re/optimize_kl.py", ["test_optimize_kl", "test_evi", "test_likelihood"]),
+    ("re/evi.py", ["test_optimize_kl", "test_evi", "test_likelihood", "test_blackjax"]),
+    ("re/likelihood", ["test_likelihood", "test_likelihood_impl", "test_optimize_kl"]),
+    ("re/hmc", ["test_hmc_leapfrog", "test_hmc_1d_distributions", "test_hmc_pytree", "test_blackjax"]),
+    ("re/correlated_field", ["test_correlated_field", "test_matern"]),
+    ("re/gauss_markov", ["test_gauss_markov", "test_correlated_field"]),
+    ("tree_math", ["test_custom_map", "test_forest_math", "test_misc", "test_likelihood", "test_ncg",
+                   "test_minisanity", "test_hmc_pytree"]),
+    ("custom_map", ["test_custom_map", "test_forest_math", "test_optimize_kl", "test_minisanity"]),
+    ("multi_grid", ["test_indexing"]),
+    ("re/evidence_lower_bound", ["test_estimate_evidence_lower_bound", "test_lanczos"]),
+    ("num/lanczos", ["test_estimate_evidence_lower_bound", "test_lanczos"]),
+    ("re/minisanity", ["test_minisanity", "test_optimize_kl"]),
+    ("stats_distributions", ["test_stats_distributions", "test_num"]),
+    ("re/prior", ["test_stats_distributions", "test_num"]),
+    ("sampling_los", ["test_sampling_los"]),
+    ("nifty/config.py", ["test_correlated_field"]),
+]
 FLAKY = ("test_beta_operator",)       # unseeded KS test, fails at random on the unchanged tree too
 
 for name in names:
@@ -53,9 +74,16 @@ for name in names:
             runs.append(("test_cl (mpi4py stubbed)", cmd, env1))
         if rex:
             env2 = dict(env, PYTHONPATH=scratch)
-            cmd = ["/venv/bin/python", "-m", "pytest", "test/test_re", "-q", "-p", "no:cacheprovider",
-                   "--timeout=900", "-n", NW]
-            runs.append(("test_re", cmd, env2))
+            sel = set()
+            for f in files:
+                for pat, tests in RE_MAP:
+                    if pat in f:
+                        sel.update(tests)
+            sel = sorted(f"test/test_re/{t}.py" for t in sel) or ["test/test_re"]
+            cmd = ["/venv/bin/python", "-m", "pytest"] + sel + ["-q", "-p", "no:cacheprovider",
+                                                               "--timeout=900", "-n", NW]
+            runs.append(("test_re (files that reach the changed module: " + " ".join(os.path.basename(x) for x in sel)
+                         + ")", cmd, env2))
         res = []
         ok = True
         for label, cmd, e in runs:
